@@ -9,6 +9,11 @@
 #[verifier::external_body]
 pub struct JsonValue { _p: u8 }
 impl Clone for JsonValue { #[verifier::external_body] fn clone(&self) -> (r: Self) ensures r == *self { unimplemented!() } }
+impl JsonValue {
+    pub uninterp spec fn s_is_null(&self) -> bool;
+    #[verifier::external_body]
+    pub fn is_null(&self) -> (r: bool) ensures r == self.s_is_null() { unimplemented!() }
+}
 // model/vars.rs: Vars wraps serde_json::Map<String, Value>; ASSUMED map semantics of the operations used by the extracted code
 #[verifier::external_body]
 pub struct Vars { _p: u8 }
@@ -30,6 +35,9 @@ impl Vars {
         ensures r is Some <==> self@.dom().contains(key.k()), r is Some ==> *r->Some_0 == self@[key.k()] { unimplemented!() }
     #[verifier::external_body]
     pub fn set<K: KeyLike>(&mut self, key: K, value: JsonValue) ensures final(self)@ == old(self)@.insert(key.k(), value) { unimplemented!() }
+    // R12: the value bound by `for (ref key, value) in &vars`
+    #[verifier::external_body]
+    pub fn value_ref(&self, k: &String) -> (r: &JsonValue) requires self@.dom().contains(k@) ensures *r == self@[k@] { unimplemented!() }
     // R12: `for (ref key, _) in &vars` is lowered to iteration over the key vector
     #[verifier::external_body]
     pub fn keys_vec(&self) -> (r: Vec<String>)
@@ -401,6 +409,12 @@ impl Process {
     #[verifier::external_body]
     pub fn task(&self, tid: &str, Tracked(h): Tracked<&Heap>) -> (r: Option<Arc<Task>>)
         ensures r is Some <==> h.has(tid@), r is Some ==> r->Some_0.id@ == tid@ && wf_task(*h, *r->Some_0),
+    { unimplemented!() }
+    // process.rs: task_by_nid(nid) -- the tasks of the process that run the node with that id (any round)
+    #[verifier::external_body]
+    pub fn task_by_nid(&self, nid: &str, Tracked(h): Tracked<&Heap>) -> (r: Vec<Arc<Task>>)
+        ensures forall|i: int| 0 <= i < r@.len() ==> h.has((#[trigger] r@[i]).id@) && wf_task(*h, *r@[i]) && r@[i].node.id@ == nid@,
+            (r@.len() == 0) <==> (forall|t: Tid| #[trigger] h.has(t) ==> h.tasks[t].node.id@ != nid@),
     { unimplemented!() }
     #[verifier::external_body]
     pub fn root(&self, Tracked(h): Tracked<&Heap>) -> (r: Option<Arc<Task>>)
